@@ -25,6 +25,8 @@ type stubSpec struct {
 	OutPA      int64 `json:"out_pad_after"`
 	ErrPB      int64 `json:"err_pad_before"`
 	ErrPA      int64 `json:"err_pad_after"`
+	NoStdin    bool  `json:"no_stdin,omitempty"`   // the plugin never reads its stdin
+	DescStdin  bool  `json:"desc_stdin,omitempty"` // the descendant inherits stdin as well
 }
 
 func stubWritePad(f *os.File, n int64) {
@@ -62,8 +64,10 @@ func stubMain() {
 	if sp.IgnSigpipe {
 		signal.Ignore(syscall.SIGPIPE)
 	}
-	in, _ := io.ReadAll(os.Stdin)
-	os.WriteFile(filepath.Join(dir, "stdin"), in, 0o644)
+	if !sp.NoStdin {
+		in, _ := io.ReadAll(os.Stdin)
+		os.WriteFile(filepath.Join(dir, "stdin"), in, 0o644)
+	}
 	out, _ := os.ReadFile(filepath.Join(dir, "out.bin"))
 	errb, _ := os.ReadFile(filepath.Join(dir, "err.bin"))
 	// stderr first, then stdout
@@ -79,6 +83,9 @@ func stubMain() {
 		c := exec.Command("/bin/sleep", secs)
 		c.Stdout = os.Stdout
 		c.Stderr = os.Stderr
+		if sp.DescStdin {
+			c.Stdin = os.Stdin // the read end of the request pipe, never read
+		}
 		c.SysProcAttr = &syscall.SysProcAttr{Setpgid: true}
 		if err := c.Start(); err == nil {
 			os.WriteFile(filepath.Join(dir, "desc.pid"), []byte(strconv.Itoa(c.Process.Pid)), 0o644)
